@@ -232,6 +232,10 @@ class Renderer:
                 pad = b"\x00" * (pad - remainder)
             else:
                 pad = b""
+            if len(pad) > 65535:
+                # The PADDING option cannot carry that much (16-bit option
+                # length): the padded message cannot be rendered at all.
+                raise dns.exception.TooBig
             options = list(opt_rdata.options)
             options.append(dns.edns.GenericOption(dns.edns.OptionType.PADDING, pad))
             opt = _make_opt(ttl, opt_rdata.rdclass, options)  # pyright: ignore
